@@ -25,6 +25,18 @@ def ctor_sites(cx, adt_suffix):
 def write_value(cx, site):
     a = cx.prog.A(site.fn)
     d = site.data
+    # path-dependent selector values on which every way of reaching the write agrees are used (as in call_args)
+    try:
+        g = cx.pg(site.fn)
+    except Exception:
+        g = None
+    if g is not None and g.tracked and not g.truncated:
+        if "stmt" in d:
+            v = g.eval_at(site.at, lambda env: a.expr_rvalue(d["stmt"]["rv"], site.at, 0, env))
+        else:
+            v = g.eval_at(site.at, lambda env: a.expr_call(d["term"], site.at, 0, env))
+        if v is not None:
+            return v
     if "stmt" in d:
         return a.expr_rvalue(d["stmt"]["rv"], site.at)
     return a.expr_call(d["term"], site.at)
